@@ -249,7 +249,10 @@ def gen(rng, tier):
             for n in small:
                 cases.append({"kind": "program", "shape": shape, "fail": fail, "n": n,
                               "program": chain_ops(shape, fail, n)})
-            for n in ([100, 1000, 10000] if tier == "quick" else [100, 1000, 10000, 100000]):
+            big = [100, 1000, 10000]
+            if tier != "quick" and (not fail or shape == "outer"):
+                big.append(100000)        # ~1 min each under the profiler
+            for n in big:
                 cases.append({"kind": "chain", "shape": shape, "fail": fail, "n": n})
     for style in ("gen", "coro"):
         for fail in (False, True):
@@ -325,7 +328,7 @@ SPEC = Spec(
     case_timeout=120.0,
     rule="4 chain shapes (outer fired first, inner fired first, innermost pre-fired, innermost paused by the user) x "
          "{success, failure}: as kernel programs for 9 lengths <= 34 (quick) / 43 lengths <= 90 (thorough) with the "
-         "frame depth of every operation compared with the model, and with 100 ... 10 000 (thorough 100 000) Deferreds "
+         "frame depth of every operation compared with the model, and with 100 ... 10 000 (thorough 100 000 for the success variants and outer/failure) Deferreds "
          "against the 10-element baseline; inlineCallbacks generators and coroutines awaiting 30 ... 20 000 (100 000) "
          "Deferreds, all pre-fired or every 7th fired later, last one failing or not; 400 (6 000) random cancel-free "
          "programs and 200 (3 000) with pauses on a non-waiting Deferred, depth per operation compared with the model. "
